@@ -5,9 +5,10 @@ CONSTANTS
   DiskR = "A"
   Feat = {"usage", "msg"}
   Feeds <- FeedsOne
-  MaxCum = 2
+  MaxCum = 1
   Steps = {1}
-  Outcomes = {"ok", "fail"}
+  Outcomes = {"ok"}
+  ZeroReports = "keys"
   RetryFailed = TRUE
   Faithful = TRUE
 INVARIANTS TypeOK AppliedIsInForce FailedIsRefused EffectiveInForce Conservation NoDoubleCount StopUnhealthy
